@@ -19,6 +19,9 @@ RULE = ("cases = (filter, subject value, positional/keyword arguments, environme
         "x killwords x leeway on the docstring text; round: value x precision x method; "
         "filesizeformat: every unit boundary +-1 x binary) plus seeded random cases for all 18 "
         "filters: texts assembled from ASCII/Unicode/very long/hyphenated words and separators "
+        "(title/capitalize/upper/lower additionally from words with special case mappings: "
+        "titlecase digraphs, sharp s, ligatures, multi-character uppercase forms, final sigma, "
+        "dotted I, combining marks, cased non-letters) "
         "(runs of spaces, tabs, every str.splitlines() line-break form, no-break spaces, "
         "punctuation, markup), whitespace-only and empty texts, lengths chosen around the "
         "truncate/center/wordwrap boundaries; each case runs through call_filter and a template "
@@ -28,7 +31,11 @@ LEVEL_TEXT = ("held on K generated executions of the real filters covering the e
               "number/length grids completely and a seeded random sample of texts and arguments")
 ASSUMPTIONS = [
     "autoescape is off; Markup subjects belong to C24",
-    "title/capitalize are exercised on letters with one-to-one, context-free case mappings",
+    "title/capitalize: what a word is beyond whitespace separation is not documented, so a cased "
+    "character that follows neither whitespace nor a letter may come out in either case; where "
+    "a case mapping is not one-to-one (sharp s, ligatures, final sigma) every reading of "
+    "'uppercase first, lowercase rest' is accepted, but a titlecase digraph (U+01C5) is not an "
+    "uppercase letter",
     "arguments respect the documented preconditions (truncate length >= len(end), leeway >= 0, "
     "wordwrap width >= 1, valid printf formats, non-empty replace substring, finite "
     "non-negative sizes, int base in {2, 8, 10, 16})",
@@ -46,6 +53,8 @@ FLOORS = {
                            "truncate:kept_within_leeway": 15, "wordwrap:multi_line": 60,
                            "wordwrap:long_word_broken": 30, "indent:multi_line": 50,
                            "string_filter_changed_text": 500,
+                           "case_filter_on_special_case_mappings": 400,
+                           "case_word_start_titlecase_differs_from_uppercase": 100,
                            "filters_exercised_min_cases": 150}},
     "thorough": {"evaluations": 600000, "distinct": 120000,
                  "counters": {"calls:call": 150000, "calls:tmpl": 150000, "calls:acall": 150000,
@@ -55,6 +64,8 @@ FLOORS = {
                               "truncate:truncated": 4500, "truncate:kept_within_leeway": 1200,
                               "wordwrap:multi_line": 7000, "wordwrap:long_word_broken": 3500,
                               "indent:multi_line": 6000, "string_filter_changed_text": 50000,
+                              "case_filter_on_special_case_mappings": 15000,
+                              "case_word_start_titlecase_differs_from_uppercase": 4000,
                               "filters_exercised_min_cases": 8000}},
 }
 N_RANDOM = {"quick": 2500, "thorough": 80000}
@@ -73,6 +84,16 @@ PLAIN_SEPS = [" "] * 8 + ["  ", "\n", "\t", ", ", ". ", "-", " - ", "(", "[", "\
 MARKUP = ["<b>", "</b>", "<i class=\"x\">", "<br/>", "<br />", "<a href='u v'>", "</a>",
           "<!-- c -->", "<!--x-->", "<p\nid=1>", "<>", "</ p>", "<em\t>", "<!---->"]
 STRAY = ["<", ">", " < ", " > ", "a<b", "1 > 0", "<!--", "-->"]
+# words whose case mappings are NOT one-to-one / context free: digraphs with a
+# separate titlecase form (U+01C4..U+01CC, U+01F1..U+01F3), sharp s, ligatures,
+# letters whose uppercase has several characters (U+0149, U+01F0, U+0390, iota
+# subscript), capital/final/medial sigma, Turkish dotted/dotless i, combining
+# marks after the first letter, cased non-letters (roman numeral, circled letter)
+SPECIAL_WORDS = ["ǆemal", "ǈubić", "Ǌ", "ǅ", "ǳ", "Ǳa", "ǄǄ", "ßtraße", "ß", "maß", "ﬁsh",
+                 "ﬂour", "ŉ", "ǰx", "ΐ", "ᾳδης", "ΟΔΟΣ", "ΑΣ", "ας", "σ", "Σ", "ΣΑΣ", "όσος",
+                 "İstanbul", "İİ", "ıi", "I", "e\u0301\u0301x", "E\u0301X", "a\u0308ǆ",
+                 "Ⅷx", "ⓐⓑ", "ǅǅ", "ﬃ", "ẞ", "K", "Å"]
+CASE_WORDS = WORDS + SPECIAL_WORDS + SPECIAL_WORDS
 SIMPLE_WORDS = [w for w in WORDS if SP.simple_case(w)]
 
 NUMBERS = [0, 1, -1, 2, 7, 42, -7, 255, 1000, 10 ** 6, 2 ** 53 + 1, 2 ** 63, -2 ** 63, 10 ** 30,
@@ -202,10 +223,10 @@ def gen_case(rng, name):
         args, kwargs = strip_defaults(rng, name, args, kwargs)
         value = s
     elif name in ("title", "capitalize"):
-        value = text(rng, words=SIMPLE_WORDS,
-                     seps=[s for s in SEPS if SP.simple_case(s)], nmax=8)
+        value = text(rng, words=SIMPLE_WORDS if rng.random() < 0.3 else CASE_WORDS, nmax=8)
     elif name in ("upper", "lower"):
-        value = text(rng, nmax=6) if rng.random() < 0.92 else rng.choice([12, 1.5, None, True])
+        value = text(rng, words=CASE_WORDS, nmax=6) if rng.random() < 0.92 \
+            else rng.choice([12, 1.5, None, True])
     elif name == "wordcount":
         value = text(rng, nmax=12)
     elif name == "replace":
@@ -477,6 +498,13 @@ def coverage_tags(name, value, args, kwargs, out, info):
                     else f"{name}:converted")
     elif isinstance(value, str) and isinstance(r, str) and r != value:
         tags.append("string_filter_changed_text")
+    if name in ("title", "capitalize", "upper", "lower") and isinstance(value, str):
+        if not SP.simple_case(value):
+            tags.append("case_filter_on_special_case_mappings")
+        if name in ("title", "capitalize"):
+            starts = list(value[:1]) if name == "capitalize" else [w[0] for w in value.split()]
+            if any(c.title() != c.upper() for c in starts):
+                tags.append("case_word_start_titlecase_differs_from_uppercase")
     return tags
 
 
